@@ -367,11 +367,13 @@ func (r *runner) endLife(how string, cf client.ConnectFuture) {
 			r.fail("liveness/close-hangs", "Client.Close did not return\n--- library goroutines ---\n%s", strings.Join(bk.LibGoroutines(), "\n\n"))
 		}
 	case strings.HasPrefix(how, "disconnect"):
-		var ms int
-		fmt.Sscanf(how, "disconnect-%d", &ms)
+		var idx int
+		fmt.Sscanf(how, "disconnect-%d", &idx)
+		// no timeout, 1 ms, 2 ms, and one that has expired before the wait begins
+		d := []time.Duration{0, time.Millisecond, 2 * time.Millisecond, time.Nanosecond}[idx%4]
 		ok := within(func() {
-			if ms > 0 {
-				_ = cl.Disconnect(time.Duration(ms) * time.Millisecond)
+			if d > 0 {
+				_ = cl.Disconnect(d)
 			} else {
 				_ = cl.Disconnect()
 			}
@@ -708,7 +710,7 @@ func runCase(c *Case) (*verdict, *runner) {
 			}
 		case "disconnect":
 			if r.cl != nil {
-				r.endLife(fmt.Sprintf("disconnect-%d", op.N%3), nil)
+				r.endLife(fmt.Sprintf("disconnect-%d", op.N%4), nil)
 				r.stats["ends"]++
 			}
 		case "deny", "wrongfirst":
@@ -772,7 +774,7 @@ func nontrivial(c *Case) bool {
 func TestC09(t *testing.T) {
 	run := ev.Start("C09", "fault_enumeration")
 	run.ShrinkTime = "3s" // a failing run re-enumerates every fault position; hangs cost a ceiling each
-	run.Rule("scripts of 1-12 steps over {Publish QoS 0/1/2, Subscribe, Unsubscribe, 2-4 goroutines publishing at once; fake broker: acknowledge the k-th outstanding request (any order), PUBREC only, acknowledgement for an unrelated id, drop; Close; Disconnect with/without timeout; next connect denied / answered by a wrong first packet}; each ended client is followed by a new client on the same session (clean session off, up to 6 lives). Every script runs fault free, then once per (operation k, before/after) on the client's connections and once per session call k failing. Oracle: a map model of the outgoing store compared after every step (PUBLISH until PUBACK/PUBCOMP, PUBREL once PUBREC arrived), everything recorded is re-sent after CONNACK (PUBLISH with DUP), history: nothing leaves the client unless the session holds it; futures: Wait times out before the acknowledgement for that id and returns nil after it, QoS 0 completes when handed over, after every connection end / Close / Disconnect all futures of that client are resolved and Close/Disconnect returned; accessors are called in every state under a panic guard. non-trivial = a drop, an out-of-order or missing acknowledgement, a reconnect with recorded packets, or a fault; distinct by (script, fault)")
+	run.Rule("scripts of 1-12 steps over {Publish QoS 0/1/2, Subscribe, Unsubscribe, 2-4 goroutines publishing at once; fake broker: acknowledge the k-th outstanding request (any order), PUBREC only, acknowledgement for an unrelated id, drop; Close; Disconnect without timeout / with 1-2 ms / with a timeout that has already expired when the wait begins (1 ns); next connect denied / answered by a wrong first packet}; each ended client is followed by a new client on the same session (clean session off, up to 6 lives). Every script runs fault free, then once per (operation k, before/after) on the client's connections and once per session call k failing. Oracle: a map model of the outgoing store compared after every step (PUBLISH until PUBACK/PUBCOMP, PUBREL once PUBREC arrived), everything recorded is re-sent after CONNACK (PUBLISH with DUP), history: nothing leaves the client unless the session holds it; futures: Wait times out before the acknowledgement for that id and returns nil after it, QoS 0 completes when handed over, after every connection end / Close / Disconnect all futures of that client are resolved and Close/Disconnect returned; accessors are called in every state under a panic guard. non-trivial = a drop, an out-of-order or missing acknowledgement, a reconnect with recorded packets, or a fault; distinct by (script, fault)")
 	run.Assume("after an injected fault only the state independent clauses are judged (no panic, no hang, all futures resolved after Close)", "API calls are issued only after a SUBSCRIBE round trip following CONNACK (the client re-sends session content while handling CONNACK; a Publish racing with that is re-sent once more with DUP, which no listed property forbids)")
 	defer run.Finish(t)
 	faultRuns := 0
@@ -830,6 +832,7 @@ func TestC09(t *testing.T) {
 		{Ops: []Op{{"pub1", 0}, {"pub2", 0}, {"rec", 0}, {"drop", 0}, {"pub1", 0}, {"ack", 0}}},
 		{Ops: []Op{{"sub", 0}, {"pub2", 0}, {"ack", 1}, {"ack", 0}, {"close", 0}, {"deny", 0}, {"pub0", 0}}},
 		{Ops: []Op{{"burst", 2}, {"ack", 2}, {"stray", 4}, {"disconnect", 1}, {"wrongfirst", 0}, {"unsub", 0}, {"ack", 0}}},
+		{Ops: []Op{{"pub1", 0}, {"pub2", 0}, {"disconnect", 3}, {"pub1", 0}, {"ack", 0}}}, // F18: Disconnect(1ns) with unacknowledged publishes
 	}
 	if shard, _ := ev.Shard(); shard == 0 {
 		for _, c := range fixed {
